@@ -1,4 +1,4 @@
 SPECIFICATION Spec
-CONSTANTS MaxLen = 6 MaxElems = 3
+CONSTANTS MaxLen = 5 MaxElems = 3
 INVARIANTS InvSort InvMerge InvScale InvErase InvEraseAt
 CHECK_DEADLOCK FALSE
